@@ -243,6 +243,35 @@ func main() {
 			}
 		}
 
+		// ---- processor.IndexFetch: the per-block read and scatter
+		if f, err := r.Load("frac/processor/fetch.go"); err != nil {
+			e.Missing("processor/fetch.go", err)
+		} else if fd := f.Func("", "IndexFetch"); fd == nil {
+			e.Missing("indexFetchLoop", "IndexFetch not found")
+		} else {
+			var stmts []string
+			for _, st := range fd.Body.List {
+				rs, ok := st.(*ast.RangeStmt)
+				if !ok {
+					continue
+				}
+				stmts = append(stmts, "for "+f.Render(rs.Key)+", "+f.Render(rs.Value)+" := range "+f.Render(rs.X))
+				for _, b := range rs.Body.List {
+					switch x := b.(type) {
+					case *ast.IfStmt:
+						stmts = append(stmts, "if "+f.Render(x.Cond)+" { "+renderBody(f, x.Body)+" }")
+					case *ast.RangeStmt:
+						stmts = append(stmts, "for "+f.Render(x.Key)+", "+f.Render(x.Value)+" := range "+f.Render(x.X)+" { "+renderBody(f, x.Body)+" }")
+					case *ast.ForStmt:
+						stmts = append(stmts, "for "+f.Render(x.Cond)+" { "+renderBody(f, x.Body)+" }")
+					default:
+						stmts = append(stmts, f.Render(b))
+					}
+				}
+			}
+			e.Strs("indexFetchLoop", stmts, "processor.IndexFetch: the loop over the blocks, statements in source order")
+		}
+
 		// ---- fracFetch recovers panics into an error (one fraction's panic fails the whole batch)
 		if f, err := r.Load("fracmanager/fetcher.go"); err != nil {
 			e.Missing("fetcher.go", err)
@@ -314,7 +343,7 @@ func main() {
 				e.Strs("fetchDocsCalls", calls, "Fetcher.FetchDocs: reversPos map, grouping, per-fraction fetch, result slice - call order")
 			}
 		}
-	}, "storeapi/docs_stream.go", "frac/sealed_index.go", "fracmanager/fetcher.go", "fracmanager/list.go", "frac/meta_data_collector.go", "frac/active.go", "storeapi/grpc_fetch.go", "seq/doc_pos.go", "conf/conf.go", "consts/consts.go")
+	}, "storeapi/docs_stream.go", "frac/sealed_index.go", "fracmanager/fetcher.go", "fracmanager/list.go", "frac/meta_data_collector.go", "frac/active.go", "frac/processor/fetch.go", "storeapi/grpc_fetch.go", "seq/doc_pos.go", "conf/conf.go", "consts/consts.go")
 }
 
 func renderBody(f *lib.File, b *ast.BlockStmt) string {
